@@ -45,7 +45,7 @@ i128 g_d, g_e;                      /* (declared by ../congruence/post.h; unused
 #define N_ISTOP  _ZN4crab7domains19interval_congruenceIN4ikos8z_numberEE6is_topEv
 
 /* ---- harness-side predicates: macros only (a function called from a contract clause must not be called from a harness) */
-#define HZ(z) ((i128)(((u128)(z).f0.a[0].f1 << 64) | (u128)(z).f0.a[0].f0))
+#define HZ(z) ((i128)(((u128)(z).f0.a.f1 << 64) | (u128)(z).f0.a.f0))
 #define HBV(b) HZ((b).f1)
 #define H_PINF(b) ((b).f0 != 0 && HBV(b) > 0)
 #define H_MINF(b) ((b).f0 != 0 && HBV(b) < 0)
